@@ -38,6 +38,10 @@ def insn_bytes(ins):
         return b"\xe8\x00\x00\x00\x00", 1
     if k == "lea":  # lea rax, [rip+sym]
         return b"\x48\x8d\x05\x00\x00\x00\x00", 3
+    if k == "icallm":  # call *sym(%rip): the target is read from memory
+        return b"\xff\x15\x00\x00\x00\x00", 2
+    if k == "ijmpm":  # jmp *sym(%rip)
+        return b"\xff\x25\x00\x00\x00\x00", 2
     raise ValueError(k)
 
 
@@ -252,6 +256,12 @@ def build_cfg(B, flat):
                 for d2 in flat:
                     if d2["kind"] == "code" and B.blocks[d2["_idx"]] is t and d2.get("func") is not None:
                         call_sites.setdefault(d2["func"], []).append(nxt)
+        elif last[0] == "icallm":
+            add_edge(cfg, blk, add_proxy_block(B.m), ET.Call, direct=False)
+            if nxt is not None:
+                add_edge(cfg, blk, nxt, ET.Fallthrough)
+        elif last[0] == "ijmpm":
+            add_edge(cfg, blk, add_proxy_block(B.m), ET.Branch, direct=False)
         elif last[0] == "syscall":
             # the kernel is entered through a Syscall edge to a proxy; execution continues behind the instruction
             add_edge(cfg, blk, add_proxy_block(B.m), ET.Syscall)
